@@ -267,8 +267,18 @@ static void build(hdr_t *h, int kind, vh_rng_t *r, bool random_skip_bytes)
 	put16(h, kind == 1 ? 3 : (kind == 2 || kind == 5 || kind == 6) ? 0xfffe : 1);
 	put16(h, chs);
 	put32(h, rate);
-	put32(h, rate * chs * bytes);
-	put16(h, chs * bytes);
+	/* the derived fields are whatever the file says: now and then zero (streaming writers leave them blank) or noise */
+	uint32_t brate = rate * chs * bytes, balign = chs * bytes;
+	if (vh_below(r, 8) == 0) {
+		brate = vh_below(r, 2) ? 0 : (uint32_t)vh_next(r);
+		VH_COUNT("headers_with_blank_or_odd_byte_rate");
+	}
+	if (vh_below(r, 8) == 0) {
+		balign = vh_below(r, 2) ? 0 : (uint32_t)vh_next(r) & 0xffff;
+		VH_COUNT("headers_with_blank_or_odd_block_align");
+	}
+	put32(h, brate);
+	put16(h, balign);
 	put16(h, bytes * 8);
 	if (fmt_size >= 18) {
 		h->has_cb = true;
@@ -303,7 +313,7 @@ static void build(hdr_t *h, int kind, vh_rng_t *r, bool random_skip_bytes)
 		put(h, "fact", 4);
 		h->off_fact_size = h->n;
 		put32(h, vh_below(r, 2) ? 4 : 12);
-		put32(h, data / (chs * bytes));
+		put32(h, data / (chs * bytes)); /* (the true frame count, whatever block_align says) */
 	}
 	put(h, "data", 4);
 	h->off_data_size = h->n;
@@ -466,6 +476,17 @@ static bool decode_and_judge(const uint8_t *bytes, size_t sz, const char *what, 
 	if (ret)
 		*ret = r;
 	VH_COUNT("decodes_judged");
+	/* the decoder reads the supplied bytes: it does not write to them either */
+	if (sz && memcmp(in, bytes, sz)) {
+		size_t d = 0;
+		while (d < sz && in[d] == bytes[d])
+			d++;
+		char hx0[300], k0[160];
+		hexs(hx0, sizeof(hx0), bytes, sz < 140 ? sz : 140);
+		snprintf(k0, sizeof(k0), "decode:input-modified:%s", what);
+		vh_violation(k0, vh_cur_replay, "rf_wavheader_decode(%zu bytes) returned %d and changed input byte %zu from 0x%02x to 0x%02x | input %s", sz,
+			     r, d, bytes[d], in[d], hx0);
+	}
 	uint64_t need = ref_needed(bytes, sz);
 	bool complete = need && need <= sz;
 	char hx[300];
